@@ -54,11 +54,11 @@ theorem C15_gen_unitcell_angle_dots :
 
 /-- `_displacement_triclinic_box`: the candidate shift written in the source, `i·box[0,c] + j·box[1,c] + k·box[2,c]`
 per component, IS `(i, j, k)·B` of the model (`shifts`); the candidate is chosen by `argmin` of
-`vector_dot(shifted, shifted)` over `fraction_to_coord(fractions) + shift`. -/
+`vector_dot(c, c)` of `c = fraction_to_coord(fractions) + shift` (local names are alpha-normalised by the extractor). -/
 theorem C15_gen_triclinic_shift (i j k : Rat) (b : Box) :
     BiotiteModel.Gen.C15.triShift i j k b = vecMul ⟨i, j, k⟩ b ∧
     BiotiteModel.Gen.C15.triSelect = ["argmin"] ∧ BiotiteModel.Gen.C15.triDiffsFrom = "fraction_to_coord" ∧
-    BiotiteModel.Gen.C15.triKey = "vector_dot(shifted_diffs, shifted_diffs)" := by
+    BiotiteModel.Gen.C15.triKey = "vector_dot(c, c), c = a + s" := by
   refine ⟨?_, by decide, by decide, by decide⟩
   first
     | rfl
@@ -93,7 +93,7 @@ theorem C15_gen_dihedral_formula (v1 v2 v3 : Vec) :
 /-- `angle = arccos(clip(vector_dot(v1, v2), -1, 1))` of the two normalised vectors; `distance = sqrt(vector_dot(diff, diff))`. -/
 theorem C15_gen_measure_forms :
     BiotiteModel.Gen.C15.angleDot = ["v1", "v2"] ∧ BiotiteModel.Gen.C15.angleNormed = ["v1", "v2"] ∧
-    BiotiteModel.Gen.C15.angleClip = ["-1", "1"] ∧ BiotiteModel.Gen.C15.distanceDot = ["diff", "diff"] := by
+    BiotiteModel.Gen.C15.angleClip = ["-1", "1"] ∧ BiotiteModel.Gen.C15.distanceDot = ["v1", "v1"] := by
   decide
 
 /-- `displacement`: both shape branches compute `v2 − v1`; every orthogonality test dispatches to
@@ -103,7 +103,7 @@ theorem C15_gen_measure_forms :
 `is_orthogonal` combines three strict `<` tests with `&`; `box_volume = abs(det)`. -/
 theorem C15_gen_displacement_structure (v1 v2 : Vec) :
     BiotiteModel.Gen.C15.dispDiffThen v1 v2 = v2.sub v1 ∧ BiotiteModel.Gen.C15.dispDiffElse v1 v2 = v2.sub v1 ∧
-    BiotiteModel.Gen.C15.dispDispatch = List.replicate 3 ("_displacement_orthogonal_box", "_displacement_triclinic_box") ∧
+    BiotiteModel.Gen.C15.dispDispatch = List.replicate 3 ("ORTHO", "TRIC") ∧
     BiotiteModel.Gen.C15.dispSteps = ["coord_to_fraction", "mod", "is_orthogonal"] ∧
     BiotiteModel.Gen.C15.orthoSteps = ["fraction_to_coord"] ∧
     BiotiteModel.Gen.C15.coordToFractionForm = ["matmul", "coord", "linalg.inv(box)"] ∧
@@ -142,14 +142,13 @@ theorem C15_gen_remove_pbc_structure :
     BiotiteModel.Gen.C15.rpbcDisp = ["index_displacement", "box=box", "periodic=True"] ∧
     BiotiteModel.Gen.C15.rpbcCumsum = ["cumsum", "axis=-2"] ∧
     BiotiteModel.Gen.C15.rpbcBase = ["move_inside_box", "coord[..., 0:1, :]"] ∧
-    BiotiteModel.Gen.C15.rpbcAssign = [("sanitized_coord[..., 0:1, :]", "base_coord"),
-      ("sanitized_coord[..., 1:, :]", "base_coord + absolute_disp")] ∧
+    BiotiteModel.Gen.C15.rpbcAssign = [("OUT[..., 0:1, :]", "BASE"), ("OUT[..., 1:, :]", "BASE + CUM")] ∧
     BiotiteModel.Gen.C15.rpLoopCalls = ["remove_pbc_from_coord", "centroid", "move_inside_box"] ∧
     BiotiteModel.Gen.C15.rpOutsideCalls = [] ∧
-    BiotiteModel.Gen.C15.rpShift = ["center_in_box - center"] ∧
-    BiotiteModel.Gen.C15.rpSelection = ["mask &= selection"] ∧
+    BiotiteModel.Gen.C15.rpShift = ["INBOX - CENTER"] ∧
+    BiotiteModel.Gen.C15.rpSelection = ["&= selection"] ∧
     BiotiteModel.Gen.C15.rpMasks = ["get_molecule_masks", "get_chain_masks"] ∧
-    BiotiteModel.Gen.C15.rpArgs = ["new_atoms.coord[..., mask, :]", "atoms.box"] := by
+    BiotiteModel.Gen.C15.rpArgs = ["COPY.coord[..., MASK, :]", "atoms.box"] := by
   decide
 
 /-- the four index wrappers: target function and index width; the width test comes first (`ValueError`), the
@@ -157,14 +156,14 @@ coordinates are gathered as `coord(atoms)[..., indices[:, i], :]`. -/
 theorem C15_gen_index_wrappers :
     BiotiteModel.Gen.C15.indexWrappers = [("index_displacement", "displacement", 2), ("index_distance", "distance", 2),
       ("index_angle", "angle", 3), ("index_dihedral", "dihedral", 4)] ∧
-    BiotiteModel.Gen.C15.indexFirstCheck = ["indices.shape[-1] != expected_amount", "ValueError"] ∧
-    BiotiteModel.Gen.C15.indexGather = ["coord(atoms)[..., indices[:, i], :]"] := by
+    BiotiteModel.Gen.C15.indexFirstCheck = ["indices.shape[-1] != L1", "ValueError"] ∧
+    BiotiteModel.Gen.C15.indexGather = ["coord(atoms)[..., indices[:, COL], :]"] := by
   decide
 
 /-- default argument values the adapter and the model assume (`box=None`, `periodic=False`, `amount=1`, …). -/
 theorem C15_gen_defaults :
     BiotiteModel.Gen.C15.defaults = [("displacement", "box", "None"), ("distance", "box", "None"), ("angle", "box", "None"),
-      ("dihedral", "box", "None"), ("_call_non_index_function", "box", "None"), ("_call_non_index_function", "periodic", "False"),
+      ("dihedral", "box", "None"), ("INDEX_DISPATCHER", "box", "None"), ("INDEX_DISPATCHER", "periodic", "False"),
       ("repeat_box", "amount", "1"), ("repeat_box_coord", "amount", "1"), ("remove_pbc", "selection", "None"),
       ("rotate_about_axis", "support", "None"), ("align_vectors", "origin_position", "None"),
       ("align_vectors", "target_position", "None"), ("orient_principal_components", "order", "None")] := by
@@ -173,7 +172,7 @@ theorem C15_gen_defaults :
 /-- exception classes of the `raise` statements, in source order. -/
 theorem C15_gen_raises :
     BiotiteModel.Gen.C15.raises = [("displacement", ["ValueError", "ValueError"]),
-      ("_call_non_index_function", ["ValueError", "ValueError"]), ("repeat_box", ["BadStructureError"]),
+      ("INDEX_DISPATCHER", ["ValueError", "ValueError"]), ("repeat_box", ["BadStructureError"]),
       ("repeat_box_coord", ["TypeError"]), ("remove_pbc", ["BadStructureError"]), ("translate", ["ValueError"]),
       ("rotate", ["ValueError"]), ("rotate_about_axis", ["ValueError"]),
       ("align_vectors", ["ValueError", "ValueError", "ValueError", "ValueError", "ValueError"]),
